@@ -655,13 +655,13 @@ func runJSON(c runCfg, prop string) error {
 				st, extra = "builderr", " detail="+dialect.Hx(p.BuildErr)
 			}
 			impl[i] = "SKIP gen=" + st + extra
-		case "E", "U":
+		case "E", "U", "EO":
 			p := byName[f[1]]
 			if p == nil || !p.OK() {
 				impl[i] = "SKIP pkg-unavailable"
 				continue
 			}
-			verb := map[string]string{"E": "RT", "U": "DEC"}[f[0]]
+			verb := map[string]string{"E": "RT", "U": "DEC", "EO": "RT"}[f[0]]
 			send = append(send, f[1]+" "+verb+" "+f[2]+" "+f[3])
 			idx = append(idx, i)
 		default:
@@ -717,6 +717,76 @@ func jsonCases(c runCfg, prop string) ([]*scratch.Pkg, []string, map[string]inte
 			tops = append(tops, s)
 			names = append(names, nm)
 			kinds[s.Kind]++
+		}
+		// oneOf types (NOT modelled in Coq: judged against the sent value only): variants told apart by a required key of
+		// their own, or by a discriminator whose mapping is partial / complete / absent
+		var oneOfLines []string
+		for oi := 0; oi < 3; oi++ {
+			nv := 2 + rng.Intn(3)
+			var vnames []string
+			for vi := 0; vi < nv; vi++ {
+				vn := fmt.Sprintf("V%d%c", oi, 'a'+vi)
+				vnames = append(vnames, vn)
+				props := []dialect.Prop{
+					{Name: fmt.Sprintf("k%d", vi), Schema: &dialect.Schema{Type: "string"}},
+					{Name: "kind", Schema: &dialect.Schema{Type: "string"}},
+					{Name: "z", Schema: &dialect.Schema{Type: "integer", Format: "int64"}},
+				}
+				comps = append(comps, dialect.Prop{Name: vn, Schema: &dialect.Schema{Type: "object", Props: props, Required: []string{fmt.Sprintf("k%d", vi), "kind"}}})
+			}
+			one := &dialect.Schema{}
+			for _, vn := range vnames {
+				one.OneOf = append(one.OneOf, &dialect.Schema{Ref: vn})
+			}
+			// discriminator names accepted for each variant: its schema name, plus the explicit mapping keys
+			accepted := make([][]string, nv)
+			for vi, vn := range vnames {
+				accepted[vi] = []string{vn}
+			}
+			switch oi {
+			case 1: // partial mapping: explicit names for some variants only (never only the last one)
+				one.DiscProp = "kind"
+				one.DiscMap = map[string]string{}
+				for vi := 0; vi < nv-1; vi += 2 {
+					alias := fmt.Sprintf("alias%d", vi)
+					one.DiscMap[alias] = vnames[vi]
+					accepted[vi] = append(accepted[vi], alias)
+				}
+			case 2: // complete mapping, two names for the first variant
+				one.DiscProp = "kind"
+				one.DiscMap = map[string]string{"first": vnames[0]}
+				accepted[0] = append(accepted[0], "first")
+				for vi, vn := range vnames {
+					alias := fmt.Sprintf("name%d", vi)
+					one.DiscMap[alias] = vn
+					accepted[vi] = append(accepted[vi], alias)
+				}
+			}
+			on := fmt.Sprintf("One%d", oi)
+			comps = append(comps, dialect.Prop{Name: on, Schema: one})
+			oneOfLines = append(oneOfLines, "JO "+pkg+" "+on)
+			for k := 0; k < nval; k++ {
+				vi := rng.Intn(nv)
+				kind := accepted[vi][rng.Intn(len(accepted[vi]))]
+				if oi == 0 {
+					kind = jStrings[rng.Intn(len(jStrings))]
+				}
+				z := "N"
+				if rng.Intn(2) == 0 {
+					z = "J(I(" + strconv.FormatInt(jInts[rng.Intn(len(jInts))], 10) + "))"
+				}
+				val := "{S(" + dialect.Hx(jStrings[1+rng.Intn(len(jStrings)-1)]) + "),S(" + dialect.Hx(kind) + ")," + z + "}"
+				var fs []string
+				for j := 0; j < nv; j++ {
+					if j == vi {
+						fs = append(fs, "J("+val+")")
+					} else {
+						fs = append(fs, "N")
+					}
+				}
+				oneOfLines = append(oneOfLines, "EO "+pkg+" "+on+" {"+strings.Join(fs, ",")+"}")
+				nE++
+			}
 		}
 		sp.CompSchemas = comps
 		// one operation so that handler.go/router.go exist
@@ -784,6 +854,7 @@ func jsonCases(c runCfg, prop string) ([]*scratch.Pkg, []string, map[string]inte
 			lines = append(lines, or.lines...)
 			lines = append(lines, cases...)
 		}
+		lines = append(lines, oneOfLines...)
 	}
 	return pkgs, lines, map[string]interface{}{"packages_planned": npk, "types": npk * per, "encode_cases": nE, "decode_cases": nU, "top_level_kinds": kinds}
 }
